@@ -23,7 +23,7 @@ PROBES = ['no_downstream_device', 'back_to_back', 'arrival_exactly_at_transmissi
 def gen(rng, tier):
     case = sched.gen_sched_case(rng, tier)
     if rng.random() < 0.06:
-        case['no_out'] = True      # a scheduler with nothing attached downstream
+        case['no_out'] = rng.choice([True, 'never'])      # a scheduler with nothing attached downstream
         case.pop('shadow', None)
     return case
 
